@@ -1,5 +1,6 @@
 import Crusta.Proofs.Oracle
 import Crusta.Proofs.DynHistory
+import Crusta.Proofs.StaticAll
 
 /-!
 # C08 — dynamic solvers always answer for the current framework (property theorems)
@@ -10,10 +11,12 @@ solver by any sequence of update calls and of queries (about arguments of the fr
 to completion on replies a correct SAT solver may give (`RunSound`), with no bound on the length of
 the history, the number of arguments or the number of SAT variables retired.
 
-`dynamic_answers_for_current_framework` is proved for the complete and stable dynamic solvers
-(`sem ≠ PR`).  For the preferred solver the corresponding statement needs the soundness of the
-search for maximal extensions on the shared solver; it is covered by the trace correspondence and
-the per-answer judge only (**partial**, see DESIGN.md).
+`dynamic_answers_for_current_framework` is proved for the three dynamic solvers: complete, stable
+and preferred.  For the preferred solver the answer comes from its own search for maximal
+extensions on the shared SAT solver (blocking clauses guarded by a selector that is retired after
+the search); its soundness is `Dyn.wp_prSkepQuery` (`Proofs/DynPR.lean`): YES means that every
+preferred extension of the current framework contains the argument, NO comes with a preferred
+extension that does not, and the computation cached for later queries is a true statement.
 -/
 
 namespace Crusta.C08
@@ -24,18 +27,18 @@ framework as it stands at the moment of the query -/
 theorem judge_is_exact (af : AF) (hwf : af.WF) (q : Query) (a : Answer) :
     checkAnswer af q a = .ok () ↔ Conforms af q a := checkAnswer_iff af hwf q a
 
-/-- **C08 for the complete and stable dynamic solvers.**  After any history of update calls `ops`
+/-- **C08 for the complete, stable and preferred dynamic solvers.**  After any history of update calls `ops`
 and queries, a query about an argument of the framework, run on sound replies, returns the status
 and the certificate the semantics dictate for the framework obtained by applying `ops` (rejected
 updates having no effect) — whatever was asked, cached, buffered or retired before. -/
-theorem dynamic_answers_for_current_framework {sem : DSem} (hsem : sem ≠ .PR) {fuel : Nat}
+theorem dynamic_answers_for_current_framework {sem : DSem} {fuel : Nat}
     {ops : List StoreOp} {d : DState} {w : World} (hreach : Reach sem fuel ops d w)
     (q : DQuery) {l id : Nat} (hl : d.pending.Live id l) {rs : List Reply}
     (hs : RunSound (query fuel d q l) rs w) {d' : DState} {a : AccAns} {w' : World}
     (hrun : interp (query fuel d q l) rs w = (.done (d', a), w')) :
     Store.runOps Store.empty ops = some d.pending ∧ AnswerOK sem d.pending q l a := by
-  obtain ⟨hq, henc, hops⟩ := reach_inv hsem hreach
-  exact ⟨hops, (query_ok hsem hq henc q hl hs hrun).2.2⟩
+  obtain ⟨hq, henc, hops⟩ := reach_inv hreach
+  exact ⟨hops, (query_ok hq henc q hl hs hrun).2.2⟩
 
 /-- what `AnswerOK` says, spelled out for a credulous query: YES comes with an extension of the
 current framework that contains the argument, NO means that no extension contains it -/
@@ -88,5 +91,26 @@ theorem cache_reads_are_after_last_update (evs : List Event) (l : Nat) (b : Bool
 argument of the pending framework -/
 example : ∃ d w, Reach .CO 100 [.newArg 1, .newArg 2, .newAtt 1 2] d w ∧ d.pending.Live 1 2 :=
   ⟨_, _, Reach.update (.newAtt 1 2) (Reach.update (.newArg 2) (Reach.update (.newArg 1) Reach.init)), by unfold Store.Live; decide⟩
+
+/-- the same for the preferred solver -/
+example : ∃ d w, Reach .PR 100 [.newArg 1, .newArg 2, .newAtt 1 2] d w ∧ d.pending.Live 1 2 :=
+  ⟨_, _, Reach.update (.newAtt 1 2) (Reach.update (.newArg 2) (Reach.update (.newArg 1) Reach.init)), by unfold Store.Live; decide⟩
+
+/-- **the recompute-from-scratch wrapper** (`DummyDynamicConstraintsEncoder` over any of the seven
+static solvers): its state is the framework store itself; a query runs the static solver's program
+on the store's view.  After any history of update calls, every answer is what the semantics dictate
+for the store reached by that history (model replayed call by call by the `dyn` family, kinds
+`dummy_*`). -/
+theorem recompute_wrapper_answers (sk : SolverKind) (cfg : Cfg) (hcfg : CfgOK sk cfg) (ops : List StoreOp)
+    (st : Store) (hst : Store.runOps Store.empty ops = some st) (e : Entry)
+    (hargs : ∀ a, a ∈ e.argsList → st.hasId a = true) (p : Prog Ans)
+    (hp : entryProg sk cfg st.view e = some p) (w : World) (hb : w.Bounded) (rs : List Reply)
+    (hs : RunSound p rs w) (ans : Ans) (w' : World) (hrun : interp p rs w = (.done ans, w')) :
+    EntryOK sk.sem st.g e ans := by
+  obtain ⟨s, hs', hinv, hrows⟩ := Store.rows_reachable ops
+  rw [hst] at hs'
+  injection hs' with hs'
+  subst hs'
+  exact static_answers_conform sk cfg hcfg st.view st.g (Store.view_ok st hinv hrows) e hargs p hp w hb rs hs ans w' hrun
 
 end Crusta.C08
